@@ -9,6 +9,7 @@ import (
 	stdrc4 "crypto/rc4"
 	"encoding/base64"
 	"fmt"
+	"hash"
 	"strings"
 	"testing"
 	"unicode/utf8"
@@ -70,7 +71,12 @@ type rc4Case struct {
 	Data    vf.Hex `json:"data"`
 	Plan    []int  `json:"plan"`
 	InPlace bool   `json:"in_place"`
+	// DstExtra[i] is by how many bytes the destination of call i is longer than its source (cipher.Stream
+	// allows len(dst) > len(src)); missing entries are 0.
+	DstExtra []int `json:"dst_extra,omitempty"`
 }
+
+func sentinel(i int) byte { return byte(0xA5 ^ i*29) }
 
 func checkRC4(c rc4Case) []vf.Finding {
 	ref, err := stdrc4.NewCipher(c.Key)
@@ -85,20 +91,39 @@ func checkRC4(c rc4Case) []vf.Finding {
 		return []vf.Finding{vf.F("rc4.NewRC4WithKey", "valid-key-rejected", "key length %d: %v", len(c.Key), err)}
 	}
 	got := make([]byte, 0, len(c.Data))
+	type kept struct {
+		out []byte // the slice the library wrote to, kept until the end
+		off int
+	}
+	var outs []kept
 	off := 0
-	for _, sz := range c.Plan {
-		src := append([]byte{}, c.Data[off:off+sz]...)
-		if c.InPlace {
-			lib.XORKeyStream(src, src)
-			got = append(got, src...)
-		} else {
-			dst := make([]byte, sz)
-			lib.XORKeyStream(dst, src)
-			if !bytes.Equal(src, c.Data[off:off+sz]) {
-				return []vf.Finding{vf.F("rc4.XORKeyStream", "source-modified", "chunk at %d", off)}
-			}
-			got = append(got, dst...)
+	for ci, sz := range c.Plan {
+		extra := 0
+		if ci < len(c.DstExtra) && c.DstExtra[ci] > 0 {
+			extra = c.DstExtra[ci]
 		}
+		dst := make([]byte, sz+extra)
+		var src []byte
+		if c.InPlace {
+			copy(dst, c.Data[off:off+sz])
+			src = dst[:sz]
+		} else {
+			src = append([]byte{}, c.Data[off:off+sz]...)
+		}
+		for i := sz; i < len(dst); i++ {
+			dst[i] = sentinel(i)
+		}
+		lib.XORKeyStream(dst, src)
+		if !c.InPlace && !bytes.Equal(src, c.Data[off:off+sz]) {
+			return []vf.Finding{vf.F("rc4.XORKeyStream", "source-modified", "chunk at %d", off)}
+		}
+		for i := sz; i < len(dst); i++ {
+			if dst[i] != sentinel(i) {
+				return []vf.Finding{vf.F("rc4.XORKeyStream", "writes-beyond-len-src", "call %d: src %d bytes, dst %d bytes: dst[%d] changed", ci, sz, len(dst), i)}
+			}
+		}
+		got = append(got, dst[:sz]...)
+		outs = append(outs, kept{dst[:sz], off})
 		off += sz
 	}
 	if !bytes.Equal(got, want) {
@@ -106,7 +131,13 @@ func checkRC4(c rc4Case) []vf.Finding {
 		for i < len(got) && got[i] == want[i] {
 			i++
 		}
-		return []vf.Finding{vf.F("rc4.XORKeyStream", "keystream-differs-from-rc4", "keylen %d datalen %d plan %v: first difference at byte %d", len(c.Key), len(c.Data), c.Plan, i)}
+		return []vf.Finding{vf.F("rc4.XORKeyStream", "keystream-differs-from-rc4", "keylen %d datalen %d plan %v dst extra %v in place %v: first difference at byte %d", len(c.Key), len(c.Data), c.Plan, c.DstExtra, c.InPlace, i)}
+	}
+	// what an earlier call returned is not touched by later calls
+	for ci, k := range outs {
+		if !bytes.Equal(k.out, want[k.off:k.off+len(k.out)]) {
+			return []vf.Finding{vf.F("rc4.XORKeyStream", "earlier-output-changed-by-later-call", "output of call %d (%d bytes at %d) changed afterwards; plan %v", ci, len(k.out), k.off, c.Plan)}
+		}
 	}
 	// involution: a second cipher with the same key decrypts
 	lib2, _ := rc4.NewRC4WithKey(append([]byte{}, c.Key...))
@@ -118,24 +149,60 @@ func checkRC4(c rc4Case) []vf.Finding {
 	return nil
 }
 
-func genRC4(t *rapid.T) rc4Case {
-	var kl int
+func genKeyLen(t *rapid.T) int {
 	switch rapid.IntRange(0, 2).Draw(t, "klClass") {
 	case 0:
-		kl = rapid.SampledFrom([]int{1, 2, 5, 8, 16, 32, 128, 255, 256}).Draw(t, "kl")
+		return rapid.SampledFrom([]int{1, 2, 5, 8, 16, 32, 128, 255, 256}).Draw(t, "kl")
 	default:
-		kl = rapid.IntRange(1, 256).Draw(t, "kl")
+		return rapid.IntRange(1, 256).Draw(t, "kl")
 	}
+}
+
+// genExtra: how much longer than the source a destination is (half the time not at all)
+func genExtra(t *rapid.T) int {
+	switch rapid.IntRange(0, 3).Draw(t, "extraClass") {
+	case 2:
+		return rapid.IntRange(1, 8).Draw(t, "extra")
+	case 3:
+		return rapid.IntRange(1, 600).Draw(t, "extra")
+	}
+	return 0
+}
+
+func genRC4(t *rapid.T) rc4Case {
+	kl := genKeyLen(t)
 	dl := rapid.SampledFrom([]int{0, 1, 255, 256, 257, 1000, -1, -1, -1}).Draw(t, "dl")
 	if dl < 0 {
 		dl = rapid.IntRange(0, 8192).Draw(t, "dlen")
 	}
-	return rc4Case{genBytes(t, "key", kl), genBytes(t, "data", dl), genSizes(t, dl, 6), rapid.Bool().Draw(t, "inplace")}
+	c := rc4Case{Key: genBytes(t, "key", kl), Data: genBytes(t, "data", dl), Plan: genSizes(t, dl, 6), InPlace: rapid.Bool().Draw(t, "inplace")}
+	if rapid.Bool().Draw(t, "longerDst") {
+		for range c.Plan {
+			c.DstExtra = append(c.DstExtra, genExtra(t))
+		}
+	}
+	return c
+}
+
+// a longer destination matters when another call follows it
+func hasExtra(c rc4Case) bool {
+	for i, x := range c.DstExtra {
+		if x > 0 && i+1 < len(c.Plan) {
+			return true
+		}
+	}
+	return false
 }
 
 func TestRC4(t *testing.T) {
 	s := vf.Begin(t, P, "rc4")
-	vf.Rapid(s, vf.N(10000, 80000), genRC4, checkRC4, func(c rc4Case) bool { return nonEmpty(c.Plan) >= 2 })
+	vf.Rapid(s, vf.N(10000, 80000), func(t *rapid.T) rc4Case {
+		c := genRC4(t)
+		if hasExtra(c) {
+			s.Class("dst-longer-than-src-then-another-call")
+		}
+		return c
+	}, checkRC4, func(c rc4Case) bool { return nonEmpty(c.Plan) >= 2 })
 }
 
 // every key length 1..256 against the standard cipher, 600 bytes in 3 chunks
@@ -152,7 +219,11 @@ func TestRC4KeyLengthsExhaustive(t *testing.T) {
 			for i := range data {
 				data[i] = byte(i ^ kl)
 			}
-			yield(rc4Case{key, data, []int{1, 255, 344}, kl%2 == 0})
+			c := rc4Case{Key: key, Data: data, Plan: []int{1, 255, 344}, InPlace: kl%2 == 0}
+			if kl%3 == 0 {
+				c.DstExtra = []int{kl, 0, 1}
+			}
+			yield(c)
 		}
 	}, checkRC4, nil)
 }
@@ -176,6 +247,126 @@ func TestRC4BadKeySizes(t *testing.T) {
 		}
 		return nil
 	}, nil)
+}
+
+// several ciphers with different keys alive at once, used in an interleaved order and re-created on the way:
+// each keeps its own permutation and position
+type rc4InstOp struct {
+	Inst  int    `json:"inst"`
+	Kind  string `json:"op"` // x: XORKeyStream(Data); new: re-create this instance from its key
+	Data  vf.Hex `json:"data,omitempty"`
+	Extra int    `json:"dst_extra,omitempty"`
+}
+type rc4InstCase struct {
+	Keys []vf.Hex    `json:"keys"`
+	Ops  []rc4InstOp `json:"ops"`
+}
+
+func rc4InstKinds(ops []rc4InstOp) string {
+	var sb strings.Builder
+	for _, o := range ops {
+		if o.Kind == "x" {
+			fmt.Fprintf(&sb, "%d:x%d ", o.Inst, len(o.Data))
+		} else {
+			fmt.Fprintf(&sb, "%d:%s ", o.Inst, o.Kind)
+		}
+	}
+	return sb.String()
+}
+
+func checkRC4Instances(c rc4InstCase) []vf.Finding {
+	n := len(c.Keys)
+	if n < 1 || n > 8 {
+		return []vf.Finding{vf.F("harness", "bad-case", "%d instances", n)}
+	}
+	libs := make([]*rc4.RC4, n)
+	refs := make([]*stdrc4.Cipher, n)
+	mk := func(i int) []vf.Finding {
+		var err error
+		if refs[i], err = stdrc4.NewCipher(c.Keys[i]); err != nil {
+			return []vf.Finding{vf.F("harness", "bad-case", "%v", err)}
+		}
+		if libs[i], err = rc4.NewRC4WithKey(append([]byte{}, c.Keys[i]...)); err != nil {
+			return []vf.Finding{vf.F("rc4.NewRC4WithKey", "valid-key-rejected", "key length %d: %v", len(c.Keys[i]), err)}
+		}
+		return nil
+	}
+	for i := range libs {
+		if fs := mk(i); fs != nil {
+			return fs
+		}
+	}
+	type kept struct{ got, want []byte }
+	var outs []kept
+	for at, o := range c.Ops {
+		if o.Inst < 0 || o.Inst >= n {
+			return []vf.Finding{vf.F("harness", "bad-case", "op %d addresses instance %d of %d", at, o.Inst, n)}
+		}
+		switch o.Kind {
+		case "new":
+			if fs := mk(o.Inst); fs != nil {
+				return fs
+			}
+		case "x":
+			want := make([]byte, len(o.Data))
+			refs[o.Inst].XORKeyStream(want, o.Data)
+			dst := make([]byte, len(o.Data)+max(o.Extra, 0))
+			libs[o.Inst].XORKeyStream(dst, append([]byte{}, o.Data...))
+			if !bytes.Equal(dst[:len(o.Data)], want) {
+				return []vf.Finding{vf.F("rc4.XORKeyStream", "instances-not-independent", "op %d on cipher %d of %d: output differs from that cipher's own RC4 stream; ops=%s", at, o.Inst, n, rc4InstKinds(c.Ops))}
+			}
+			outs = append(outs, kept{dst[:len(o.Data)], want})
+		}
+	}
+	for i, k := range outs {
+		if !bytes.Equal(k.got, k.want) {
+			return []vf.Finding{vf.F("rc4.XORKeyStream", "earlier-output-changed-by-later-call", "output %d changed afterwards; ops=%s", i, rc4InstKinds(c.Ops))}
+		}
+	}
+	return nil
+}
+
+// interleaved: some instance is used, then another one, then the first again
+func interleaved(insts []int) bool {
+	last := map[int]int{}
+	for at, i := range insts {
+		if p, ok := last[i]; ok && p+1 < at {
+			return true
+		}
+		last[i] = at
+	}
+	return false
+}
+
+func TestRC4Instances(t *testing.T) {
+	s := vf.Begin(t, P, "rc4-instances")
+	vf.Rapid(s, vf.N(4000, 60000), func(t *rapid.T) rc4InstCase {
+		var c rc4InstCase
+		for i, n := 0, rapid.IntRange(2, 3).Draw(t, "instances"); i < n; i++ {
+			c.Keys = append(c.Keys, genBytes(t, "key", genKeyLen(t)))
+		}
+		for i, n := 0, rapid.IntRange(2, 10).Draw(t, "nops"); i < n; i++ {
+			o := rc4InstOp{Inst: rapid.IntRange(0, len(c.Keys)-1).Draw(t, "inst"), Kind: "x"}
+			if rapid.IntRange(0, 7).Draw(t, "kind") == 7 {
+				o.Kind = "new"
+			} else {
+				ln := rapid.SampledFrom([]int{0, 1, 255, 256, 257, -1, -1, -1}).Draw(t, "dl")
+				if ln < 0 {
+					ln = rapid.IntRange(0, 600).Draw(t, "dlen")
+				}
+				o.Data = genBytes(t, "data", ln)
+				o.Extra = genExtra(t)
+			}
+			c.Ops = append(c.Ops, o)
+		}
+		return c
+	}, checkRC4Instances, func(c rc4InstCase) bool {
+		var insts []int
+		for _, o := range c.Ops {
+			insts = append(insts, o.Inst)
+		}
+		return interleaved(insts)
+	})
 }
 
 // ---- CMAC ------------------------------------------------------------------
@@ -216,6 +407,11 @@ func checkCMAC(c cmacCase) []vf.Finding {
 		return []vf.Finding{vf.F("cmac.Size", "size-not-block-size", "%s: Size %d", c.Cipher, h.Size())}
 	}
 	var model []byte // bytes written since the last Reset
+	type kept struct {
+		at        int
+		got, want []byte
+	}
+	var sums []kept // every slice Sum returned, kept until the end of the sequence
 	for i, o := range c.Ops {
 		switch o.Kind {
 		case "w":
@@ -237,6 +433,13 @@ func checkCMAC(c cmacCase) []vf.Finding {
 			if !bytes.Equal(got[:len(prefix)], o.Data[:len(prefix)]) || !bytes.Equal(got[len(prefix):], want) {
 				return []vf.Finding{vf.F("cmac.Sum", "differs-from-rfc4493", "%s op %d (%s) after %d bytes since reset: got %x want %x%x; ops=%s", c.Cipher, i, o.Kind, len(model), got, prefix, want, opKinds(c.Ops))}
 			}
+			sums = append(sums, kept{i, got, append(append([]byte{}, prefix...), want...)})
+		}
+	}
+	// a digest that was handed out does not change when the hash is used further
+	for _, k := range sums {
+		if !bytes.Equal(k.got, k.want) {
+			return []vf.Finding{vf.F("cmac.Sum", "returned-digest-changed-by-later-call", "%s: the slice returned by op %d was %x and is now %x; ops=%s", c.Cipher, k.at, k.want, k.got, opKinds(c.Ops))}
 		}
 	}
 	return nil
@@ -328,6 +531,145 @@ func TestCMACLengthsExhaustive(t *testing.T) {
 			}
 		}
 	}, checkCMAC, cmacNontrivial)
+}
+
+// several MACs (different ciphers and keys) alive at once and used in an interleaved order
+type cmacInst struct {
+	Cipher string `json:"cipher"`
+	Key    vf.Hex `json:"key"`
+}
+type cmacInstOp struct {
+	Inst int    `json:"inst"`
+	Kind string `json:"op"` // w, sum, reset, new (re-create this instance from its key)
+	Data vf.Hex `json:"data,omitempty"`
+}
+type cmacInstCase struct {
+	Insts []cmacInst   `json:"instances"`
+	Ops   []cmacInstOp `json:"ops"`
+}
+
+func cmacInstKinds(ops []cmacInstOp) string {
+	var sb strings.Builder
+	for _, o := range ops {
+		if o.Kind == "w" {
+			fmt.Fprintf(&sb, "%d:w%d ", o.Inst, len(o.Data))
+		} else {
+			fmt.Fprintf(&sb, "%d:%s ", o.Inst, o.Kind)
+		}
+	}
+	return sb.String()
+}
+
+type liveCMAC struct {
+	h     hash.Hash
+	ref   cipher.Block
+	model []byte // bytes written since the last Reset
+}
+
+func checkCMACInstances(c cmacInstCase) []vf.Finding {
+	n := len(c.Insts)
+	if n < 1 || n > 8 {
+		return []vf.Finding{vf.F("harness", "bad-case", "%d instances", n)}
+	}
+	ls := make([]*liveCMAC, n)
+	mk := func(i int) []vf.Finding {
+		blk, err := mkCipher(c.Insts[i].Cipher, c.Insts[i].Key)
+		if err != nil {
+			return []vf.Finding{vf.F("harness", "bad-case", "%v", err)}
+		}
+		blk2, _ := mkCipher(c.Insts[i].Cipher, c.Insts[i].Key)
+		ls[i] = &liveCMAC{h: cmac.New(blk), ref: blk2}
+		return nil
+	}
+	for i := range ls {
+		if fs := mk(i); fs != nil {
+			return fs
+		}
+	}
+	type kept struct {
+		at        int
+		got, want []byte
+	}
+	var sums []kept
+	sum := func(i, at int) []vf.Finding {
+		got := ls[i].h.Sum(nil)
+		want := refcrypto.CMAC(ls[i].ref, ls[i].model)
+		if !bytes.Equal(got, want) {
+			return []vf.Finding{vf.F("cmac.Sum", "instances-not-independent", "op %d, MAC %d of %d (%s) after %d bytes since reset: got %x want %x; ops=%s", at, i, n, c.Insts[i].Cipher, len(ls[i].model), got, want, cmacInstKinds(c.Ops))}
+		}
+		sums = append(sums, kept{at, got, want})
+		return nil
+	}
+	for at, o := range c.Ops {
+		if o.Inst < 0 || o.Inst >= n {
+			return []vf.Finding{vf.F("harness", "bad-case", "op %d addresses instance %d of %d", at, o.Inst, n)}
+		}
+		l := ls[o.Inst]
+		switch o.Kind {
+		case "w":
+			l.h.Write(o.Data)
+			l.model = append(l.model, o.Data...)
+		case "reset":
+			l.h.Reset()
+			l.model = l.model[:0]
+		case "new":
+			if fs := mk(o.Inst); fs != nil {
+				return fs
+			}
+		case "sum":
+			if fs := sum(o.Inst, at); fs != nil {
+				return fs
+			}
+		}
+	}
+	for i := range ls {
+		if fs := sum(i, len(c.Ops)); fs != nil {
+			return fs
+		}
+	}
+	for _, k := range sums {
+		if !bytes.Equal(k.got, k.want) {
+			return []vf.Finding{vf.F("cmac.Sum", "returned-digest-changed-by-later-call", "the slice returned at op %d was %x and is now %x; ops=%s", k.at, k.want, k.got, cmacInstKinds(c.Ops))}
+		}
+	}
+	return nil
+}
+
+func TestCMACInstances(t *testing.T) {
+	s := vf.Begin(t, P, "cmac-instances")
+	vf.Rapid(s, vf.N(6000, 60000), func(t *rapid.T) cmacInstCase {
+		var c cmacInstCase
+		for i, n := 0, rapid.IntRange(2, 3).Draw(t, "instances"); i < n; i++ {
+			name := rapid.SampledFrom([]string{"aes128", "aes128", "aes192", "aes256", "des", "tdea"}).Draw(t, "cipher")
+			c.Insts = append(c.Insts, cmacInst{name, genBytes(t, "key", keyLen(name))})
+		}
+		for i, n := 0, rapid.IntRange(2, 10).Draw(t, "nops"); i < n; i++ {
+			o := cmacInstOp{Inst: rapid.IntRange(0, len(c.Insts)-1).Draw(t, "inst")}
+			switch rapid.IntRange(0, 9).Draw(t, "kind") {
+			case 0, 1, 2, 3, 4:
+				o.Kind = "w"
+				ln := rapid.SampledFrom([]int{0, 1, 7, 8, 9, 15, 16, 17, 32, -1, -1, -1}).Draw(t, "dl")
+				if ln < 0 {
+					ln = rapid.IntRange(0, 100).Draw(t, "dlen")
+				}
+				o.Data = genBytes(t, "data", ln)
+			case 5, 6, 7:
+				o.Kind = "sum"
+			case 8:
+				o.Kind = "reset"
+			default:
+				o.Kind = "new"
+			}
+			c.Ops = append(c.Ops, o)
+		}
+		return c
+	}, checkCMACInstances, func(c cmacInstCase) bool {
+		var insts []int
+		for _, o := range c.Ops {
+			insts = append(insts, o.Inst)
+		}
+		return interleaved(insts)
+	})
 }
 
 // ---- PKCS#7 ------------------------------------------------------------------
